@@ -26,6 +26,7 @@ CATALOGUE = [
     "Macro: P\n    Call macro: Q\nMacro: Q\n    Call macro: P\nCall macro: P", "Info: hello", "Error: x", "Warning", "Stop", "Restart",
     "# comment", "", "Increment run counter: 5", "Notify: hi", "Batch: B1", ":", "Mark:", "Watch: > 3\n    Mark: X",
     "Block: B\n    End block\n    Mark: after", "Block: B\n  Mark: two spaces", "Simulate: In1 = 3", "Watch: In1 > 0\n    Foo",
+    "Alarm: In1 > 0\n    Foo", "Alarm: In1 > 0\n    Mark: A1\n    Foo: x\n    Mark: A2", "Macro: F\n    Foo\nCall macro: F",
 ]
 N_TICKS = 12
 
@@ -91,6 +92,11 @@ def _scenario(sym, mode_note=""):
                 sym.check(rig.system_state == "Paused", "error-did-not-pause", lambda: f"{desc}: method error but System State {rig.system_state}")
                 sym.check(str(rig.tag("Method Status")) == "Error", "method-status-not-error",
                           lambda: f"{desc}: method error but Method Status {rig.tag('Method Status')!r}")
+            if saw_error and ctl == "none" and not inj and not restart_seen and rig.system_state == "Paused" and str(rig.tag("Method Status")) == "Error":
+                # the failing instruction is marked as failed in the method state for as long as the run is paused on that error
+                failed = list(rig.method_state().failed_line_ids)
+                sym.check(len(failed) > 0, "failed-instruction-not-marked",
+                          lambda: f"{desc}: tick {i}: run paused with Method Status Error ({e.get_error_state_exception()!r}) but the method state marks no line as failed")
         sym.reach()
         # the engine stays responsive: Stop is accepted and completes, a corrected method is accepted and runs
         for _ in range(4):
